@@ -20,7 +20,7 @@ def run_e2e(ctx, n, tag):
     int_methods = set(m["name"] for m in cfg["instance_methods"])
     jobs = []
     for k in range(n):
-        text, bad, first, inh = C16.gen_case(rng, k)
+        text, bad, first, inh = C16.gen_case(rng, k, plain=True)
         lines = text.rstrip("\n").split("\n")[: first - 1]
         # parse the generated structure back: class -> parent, pub, priv, cms, inc, ext
         classes = {}
